@@ -74,8 +74,9 @@ func runCheck(args []string) int {
 	if tier == "thorough" {
 		cfg.Tier = 1
 		cfg.TimeoutMs = 60000
-		cfg.Preempt = 2
-		cfg.MaxWallS = 1500
+		// the default preemption bound stays 1 (harnesses that are about schedules raise it themselves
+		// with vPreempt(.. + vTier())): a blanket bound of 2 did not finish within hours
+		cfg.MaxWallS = 900
 	}
 	if replay != "" {
 		return doReplay(prop, replay, cfg)
